@@ -54,6 +54,11 @@ ASSUMPTIONS = [
     "non-ASCII name characters are accepted as NCName characters by the Lean lexical check (approximation of \\i / \\c)",
     "identity constraints other than xs:ID uniqueness, and facets other than enumeration / maxLength / finite patterns, do not occur in the loaded schemas (the translator refuses them)",
     "message kinds the property statement does not name (ManageNameID*, NameIDMapping*, AssertionIDRequest answers, ECP/SOAP envelopes) are exercised for the validator correspondence but not constrained by the spec",
+    "places where xmlschema 2.5.1 is laxer than XSD are kept out of the MUTANT stream (the library emits none of them; the Lean validator "
+    "follows XSD there): character data inside an element whose content model is one wildcard particle, blanks inside an xml:lang value "
+    "(union validated token-wise), a list type as xsi:type of its item type, '_' inside numeric literals, blanks inside xs:decimal",
+    "validator branches abstract-element / fixed-mismatch / bad-schema-ref cannot be reached with the regenerated schema set (no abstract "
+    "element declarations, no fixed attribute values); they are exercised by examples on a hand-made schema in Props/C13.lean",
 ]
 PARALLEL = True
 
@@ -298,7 +303,11 @@ def mutate(tree, mut):
         if n:
             n[0] = "urn:x-verif:foreign"
     elif kind == "insert_foreign":
-        n, _ = pick(lambda n, p: True)
+        n = None
+        if rng.random() < 0.3:  # places with a strict wildcard (xmldsig)
+            n, _ = pick(lambda n, p: n[1] in ("CanonicalizationMethod", "SignatureMethod", "X509Data", "KeyValue"))
+        if n is None:
+            n, _ = pick(lambda n, p: True)
         n[4].insert(rng.randrange(len(n[4]) + 1), ["urn:x-verif:foreign", "Thing", [["", "a", "1"]], rng.choice(["", "t"]), []])
     elif kind == "insert_known":
         n, _ = pick(lambda n, p: True)
@@ -353,10 +362,14 @@ def mutate(tree, mut):
                             "{%s}StatusResponseType" % SAMLP, "{%s}ResponseType" % SAMLP, "{%s}AttributeStatementType" % SAML,
                             "{%s}localizedNameType" % MD, "{%s}localizedURIType" % MD, "{%s}IndexedEndpointType" % MD, "{%s}EndpointType" % MD])
             n[2].append([XSI, "type", v])
-            if rng.random() < 0.5:
+            if rng.random() < 0.5 and not _only_wildcard(n):
                 n[3] = rng.choice(BAD_VALUES)
     elif kind == "xsi_nil":
-        n, _ = pick(lambda n, p: True)
+        n = None
+        if rng.random() < 0.5:  # the one nillable element of the schema set
+            n, _ = pick(lambda n, p: n[1] == "AttributeValue")
+        if n is None:
+            n, _ = pick(lambda n, p: True)
         n[2][:] = [a for a in n[2] if not (a[0] == XSI and a[1] == "nil")]
         n[2].append([XSI, "nil", rng.choice(["true", "false", "1", "maybe"])])
         if rng.random() < 0.3:
@@ -1937,3 +1950,10 @@ def shrink(case):
                 c = copy.deepcopy(case)
                 del c["cfg"]["service"][r][k]
                 yield c
+
+
+def search_cases(rng, broken, build_log):
+    """A proof obligation broke (typically C13_order_table after a change of a class table or of an XSD sequence):
+    look for a concrete instance whose serialisation the content model rejects."""
+    for c in order_cases(rng, 60):
+        yield c
